@@ -2,7 +2,7 @@
    adfCreateVol/adfMountHd are REGENERATED from the C sources on every run; `run` (Base/Prog.v)
    interprets every volume-level access of every program through those guards. *)
 From Coq Require Import ZArith List Bool String.
-From ADF Require Import CPrelude Generated.Leaf Generated.Layout Base.Prog Proofs.ProgP.
+From ADF Require Import CPrelude Generated.Leaf Generated.Layout Base.Prog Proofs.ProgP Proofs.FormatP.
 Import ListNotations.
 Local Open Scope Z_scope.
 
@@ -65,6 +65,11 @@ Definition expected_device_users : list (string * list string) :=
     ("adfWritePARTblock", ["adfWriteBlockDev"]);
     ("adfWriteRDSKblock", ["adfWriteBlockDev"]) ]%string.
 
+(* a floppy volume is exactly its device: first block 0, last block cyl*heads*sect - 1 (regenerated from adfMountFlop) *)
+Theorem C13_floppy_volume_is_the_device : forall c h sct, 0 <= c * h < 2 ^ 32 -> 0 < c * h * sct < 2 ^ 31 ->
+  let '(f, l, r) := s_adfMountFlop_range c h sct in f = 0 /\ l = c * h * sct - 1.
+Proof. exact flop_range_inside. Qed.
+
 Theorem C13_funnel : device_users = expected_device_users.
 Proof. reflexivity. Qed.
 
@@ -78,4 +83,5 @@ Print Assumptions C13_guard_write.
 Print Assumptions C13_any_program.
 Print Assumptions C13_partitions.
 Print Assumptions C13_create_mount_agree.
+Print Assumptions C13_floppy_volume_is_the_device.
 Print Assumptions C13_funnel.
